@@ -91,6 +91,9 @@ class Fields(object):
         if self.rng.random() < self.b:
             n = self.rng.choice([49, 50, 51, 70])
             return (text_of(self.rng, 200, False) * 10)[:n].rstrip() or "r"
+        if self.rng.random() < 0.06:
+            # a carriage return in the middle of the free text is a byte of that text (a line ends at LF, or CR LF)
+            return self.rng.choice(["Real\rName", "a\rb c", "x \r y"])
         return text_of(self.rng, 40)
 
     def password(self, wellformed=True):
@@ -124,6 +127,8 @@ def reply_text(rng, kind):
     if kind in ("NO", "AGAIN", "MORE") and rng.random() < 0.04:
         # a text that does not fit the daemon's output line: it may be cut, but the line must still end
         return kind + " " + "".join(rng.choice("abcdefghij klmnop%:") for _ in range(rng.choice([990, 1010, 1024, 1100, 2000]))).strip()
+    if kind in ("NO", "AGAIN", "MORE") and rng.random() < 0.04:
+        return kind + " " + rng.choice(["go\raway", "try again\rlater", "a\r\rb"])
     if kind == "NO":
         return "NO " + text_of(rng).strip(" ") if rng.random() < 0.5 else "NO " + text_of(rng)
     if kind == "AGAIN":
